@@ -44,13 +44,13 @@ CHECKS = {
  'C13': ('fault_enumeration', 'seq', 'deterministic simulation: fault enumeration over the internal DB calls of failing modifications + seeded histories',
          'white-box session snapshot before/after every failing modification (natural failures and a DB fault at each internal call of the operation)', 'DESIGN 5 C13'),
  'C14': ('exploration', 'seq+conc', 'deterministic simulation: seeded histories and thread schedules with key collisions',
-         'duplicate keys must be reported at the operation or prevent the commit; dumps never hold equal keys; concurrent creators under seeded schedules', 'DESIGN 5 C14'),
+         'duplicate keys must be reported at the operation or prevent the commit; dumps never hold equal keys; a third of the histories on tables without UNIQUE constraints (only the session can report); concurrent creators under seeded schedules', 'DESIGN 5 C14'),
  'C15': ('exploration', 'seq', 'deterministic simulation: seeded deletion histories against model cascade semantics',
          'model cascade semantics plus foreign_key_check after every commit', 'DESIGN 5 C15'),
  'C16': ('exploration', 'seq', 'deterministic simulation: seeded histories under immediate foreign keys',
          'a clean orderable session never gets an integrity error at flush; cycles raise and do not commit', 'DESIGN 5 C16'),
  'C17': ('fault_enumeration', 'crash', 'deterministic simulation: crash snapshot at every DB-API call boundary + error injection at every call index',
-         'every call-boundary snapshot of the database files equals the last committed model state; every (call index, fault kind) leaves all or nothing', 'DESIGN 5 C17'),
+         'every call-boundary snapshot of the database files equals the last committed model state; every (call index, fault kind) leaves all or nothing, also when the program catches the error inside the session, carries on and rolls back; connection loss on a stand-in reconnecting provider', 'DESIGN 5 C17'),
  'C18': ('fault_enumeration', 'sess', 'deterministic simulation: enumerated db_session configuration grid with injected exceptions and commit faults against an executable spec',
          'grid of session forms x options x raise positions, each compared with a small executable specification of the documented commit/retry rule', 'DESIGN 5 C18'),
  'C19': ('fault_enumeration', 'shapes+conc', 'deterministic simulation: DB-API fault enumeration over session shapes + seeded thread schedules',
@@ -62,15 +62,15 @@ CHECKS = {
  'C22': ('exploration', 'conc', 'deterministic simulation: seeded line-level pre-emption at shared-cache access points, differential against solo runs',
          'threads sharing code objects with differing baked-in parameters under line-level pre-emption inside the cache functions; per-thread observations must equal the solo run', 'DESIGN 5 C22'),
  'C23': ('exploration', 'seq', 'deterministic simulation: seeded histories under randomised loading knobs against one reference model',
-         'the C09/C10 oracles under lazy attributes, prefetch, batch thresholds and parameter limits chosen by seeded knobs', 'DESIGN 5 C23'),
+         'the C09/C10 oracles under lazy attributes (scalars and references), lazy collections, prefetch, batch thresholds and parameter limits chosen by seeded knobs; reads that raise a repeatable-read error in single-writer histories', 'DESIGN 5 C23'),
  'C32': ('exploration', 'seq', 'deterministic simulation: seeded histories ending sessions every way, then operations on detached objects',
          'mutations of detached objects raise, send zero DB calls and change nothing', 'DESIGN 5 C32'),
  'C33': ('exploration', 'seq', 'deterministic simulation: recorded hook/statement event history, exactly-once and ordering oracle',
-         'hook events interleaved with statement events: exactly once, ordered, edits saved in the same flush', 'DESIGN 5 C33'),
+         'hook events interleaved with statement events: exactly once, ordered, edits saved in the same flush; hooks that log, read, edit, create, link, or edit other objects from after_* hooks', 'DESIGN 5 C33'),
  'C35': ('exploration', 'conc', 'deterministic simulation: seeded schedules of a locking session against Pony writers and an external raw writer',
          'no external write is applied to a locked row before the locker ends; conservation of increments', 'DESIGN 5 C35'),
  'C36': ('fault_enumeration', 'fork', 'deterministic simulation: real fork() at enumerated session positions, connection pid ledger',
-         'enumerated fork positions x parent/child orders; no call on a connection from a pid that did not create it', 'DESIGN 5 C36'),
+         'enumerated fork positions x parent/child orders, second database, failing child connect, grandchild; no call on a connection from a pid that did not create it', 'DESIGN 5 C36'),
 }
 
 ENGINES = {
